@@ -181,7 +181,7 @@ def interior_points(rng, nodes):
     return pts
 
 def gen_hist1(rng, tier, cases):
-    N = 160 if tier == "quick" else 1200
+    N = 160 if tier == "quick" else 1000
     g = rng.fork("hist1-rat")
     for h in range(N):
         n = g.range(2, 12) if h % 8 else g.range(0, 1)
@@ -272,7 +272,7 @@ def shape(rng, h):
     return nx, ny
 
 def gen_hist2(rng, tier, cases):
-    N = 160 if tier == "quick" else 1200
+    N = 160 if tier == "quick" else 1000
     for elt in ('rat', 'f64'):
         g = rng.fork("hist2-" + elt)
         for h in range(N):
@@ -321,7 +321,7 @@ def gen_hist2(rng, tier, cases):
 
 def generate(rng, tier):
     cases = []
-    per = 1 if tier == "quick" else 6
+    per = 1 if tier == "quick" else 5
     for f, b in (("hist1-rat", 30000), ("hist1-f64", 12000), ("interp-trap1", 30000), ("interp-trap1-linear", 15000), ("file1", 18000),
                  ("hist2-rat", 45000), ("hist2-f64", 18000), ("index-map", 30000), ("quad2", 14000), ("quad2-bilinear", 14000)):
         BUDGET[f] = per * b
